@@ -91,16 +91,27 @@ func (dec *Decoder) readStringAsBytes(utf16Length int) (data []byte, safe bool) 
 			data = make([]byte, 0, utf16Length*3)
 		}
 		data = append(data, buf...)
-		if !dec.loadMore() {
-			if remains < 0 {
-				if dec.Error == nil {
-					dec.Error = ErrInvalidUTF8
+		// a character cut by the end of the buffer is completed from the following
+		// reads, however few bytes each of them returns
+		for {
+			if !dec.loadMore() {
+				if remains < 0 {
+					if dec.Error == nil {
+						dec.Error = ErrInvalidUTF8
+					}
 				}
+				return
 			}
-			return
+			n := -remains
+			if n > dec.tail-dec.head {
+				n = dec.tail - dec.head
+			}
+			data = append(data, dec.buf[dec.head:dec.head+n]...)
+			dec.head += n
+			if remains += n; remains == 0 {
+				break
+			}
 		}
-		data = append(data, dec.buf[dec.head:dec.head-remains]...)
-		dec.head -= remains
 		length = dec.tail - dec.head
 	}
 }
